@@ -239,6 +239,10 @@ def gen(tier):
             for g in keys:
                 for h in keys:
                     yield {'k': 'comp3', 'expr': app(f, app(g, app(h, 'name'))), 'f': f, 'g': g, 'h': h, 'fn': 'compose3'}
+    # a call next to its own negation, in both orders (the value of the call is not the negation negated back)
+    for call in ('lower(name)', 'substr(name, 1, 4)', 'upper(name)', 'hex(size)', 'concat(name)', 'trim(name)', 'year(name)', 'substr(name, 1, 3)'):
+        yield {'k': 'pair', 'a': '-' + call, 'b': call, 'fn': 'call-beside-its-negation'}
+        yield {'k': 'pair', 'a': call, 'b': '-' + call, 'fn': 'call-beside-its-negation'}
     # ---- wrong-kind arguments: empty value or status 2, never a crash
     for e in ("substr(name, x)", "substr(name, 1, y)", "substr('abc', 1.5)", "power(2, x)", "power(x, 2)", "log(8, b)", "log(x)",
               "format_time(abc)", "format_time(-5)", "format_time(1.5)", "hex(abc)", "bin(1.5)", "oct(name)", "abs(name)",
@@ -305,6 +309,9 @@ FILES = {}
 for i, s_ in enumerate(STRS):
     FILES[s_] = F(i * 37 % 300, mtime=T0 + i * 86400 * 40)
 FILES['noext'] = F(255, mtime=1583020799)
+FILES['007'] = F(8, mtime=T0 + 86400 * 7)
+FILES['0042-notes.txt'] = F(9, mtime=T0 + 86400 * 8)
+FILES['1e3'] = F(10, mtime=T0 + 86400 * 9)
 FILES['has needle'] = F(11, data='a needle b\n', xattr={'user.k': b'Val One'}, mtime=T0 + 5)
 FILES['no_needle'] = F(4, data='xyz\n', mtime=T0 + 86400 * 3)
 FILES['other k'] = F(6, data='needle', xattr={'user.k': b'second'}, mtime=T0 + 86400 * 400)
